@@ -467,10 +467,12 @@ class Discovery (EventMixin):
     return EventHalt # Probably nobody else needs this event
 
   def _delete_links (self, links):
-    for link in links:
-      self.raiseEventNoErrors(LinkEvent, False, link)
+    # Update the adjacency first, so that listeners see the topology as it
+    # is now (the spanning tree, for one, recomputes from it)
     for link in links:
       self.adjacency.pop(link, None)
+    for link in links:
+      self.raiseEventNoErrors(LinkEvent, False, link)
 
   def is_edge_port (self, dpid, port):
     """
